@@ -677,7 +677,7 @@ func c14KeyPairs() fw.Result {
 	}
 	// plus the text tuples that collide under any "join the components with a middle" encoding (each only against its partner)
 	nT2 := len(t2)
-	for _, pr := range middlePairs() {
+	for _, pr := range collisionPairs() {
 		t2 = append(t2, []any{pr[0][0], pr[0][1]}, []any{pr[1][0], pr[1][1]})
 	}
 	for ci, c := range []cfgT{{"SELECT acc_count(v) OVER (PARTITION BY a) AS c FROM stream", t1}, {"SELECT acc_count(v) OVER (PARTITION BY a, b) AS c FROM stream", t2}} {
